@@ -126,7 +126,7 @@ fn addr_body(a32: bool) {
     std::mem::forget(ax);
 }
 
-// @harness id=c05_addr64 props=C05 crash=C05,C19 tier=quick timeout=1500 desc="instruction_operand+mem_addr for every 64-bit addressing class: base x index x scale x disp x segment, all register values"
+// @harness id=c05_addr64 props=C05,C19 crash=C05,C19 tier=quick timeout=1500 desc="instruction_operand+mem_addr for every 64-bit addressing class: base x index x scale x disp x segment, all register values"
 #[cfg_attr(kani, kani::proof)]
 #[cfg_attr(kani, kani::unwind(90))]
 #[cfg_attr(kani, kani::stub(alloc::fmt::format, crate::verif::util::stub_format))]
@@ -135,7 +135,7 @@ pub(crate) fn c05_addr64() {
     addr_body(false);
 }
 
-// @harness id=c05_addr32 props=C05 crash=C05,C19 tier=quick timeout=1500 desc="same under the 0x67 address-size prefix: 32-bit base/index registers, EIP-relative, result zero-extended mod 2^32"
+// @harness id=c05_addr32 props=C05,C19 crash=C05,C19 tier=quick timeout=1500 desc="same under the 0x67 address-size prefix: 32-bit base/index registers, EIP-relative, result zero-extended mod 2^32"
 #[cfg_attr(kani, kani::proof)]
 #[cfg_attr(kani, kani::unwind(90))]
 #[cfg_attr(kani, kani::stub(alloc::fmt::format, crate::verif::util::stub_format))]
@@ -171,7 +171,7 @@ fn lea_body(w: u32, a32: bool) {
     std::mem::forget(ax);
 }
 
-// @harness id=c05_lea64 props=C05 crash=C05,C19 tier=quick timeout=1500 desc="LEA r64, m over every 64-bit addressing class (segment ignored)"
+// @harness id=c05_lea64 props=C05,C19 crash=C05,C19 tier=quick timeout=1500 desc="LEA r64, m over every 64-bit addressing class (segment ignored)"
 #[cfg_attr(kani, kani::proof)]
 #[cfg_attr(kani, kani::unwind(90))]
 #[cfg_attr(kani, kani::stub(alloc::fmt::format, crate::verif::util::stub_format))]
@@ -182,7 +182,7 @@ pub(crate) fn c05_lea64() {
     lea_body(64, false);
 }
 
-// @harness id=c05_lea32 props=C05 crash=C05,C19 tier=quick timeout=1500 desc="LEA r32, m: result truncated to 32 bits and zero-extended"
+// @harness id=c05_lea32 props=C05,C19 crash=C05,C19 tier=quick timeout=1500 desc="LEA r32, m: result truncated to 32 bits and zero-extended"
 #[cfg_attr(kani, kani::proof)]
 #[cfg_attr(kani, kani::unwind(90))]
 #[cfg_attr(kani, kani::stub(alloc::fmt::format, crate::verif::util::stub_format))]
@@ -193,7 +193,7 @@ pub(crate) fn c05_lea32() {
     lea_body(32, false);
 }
 
-// @harness id=c05_lea16 props=C05 crash=C05,C19 tier=quick timeout=1500 desc="LEA r16, m: low 16 bits written, upper 48 preserved"
+// @harness id=c05_lea16 props=C05,C19 crash=C05,C19 tier=quick timeout=1500 desc="LEA r16, m: low 16 bits written, upper 48 preserved"
 #[cfg_attr(kani, kani::proof)]
 #[cfg_attr(kani, kani::unwind(90))]
 #[cfg_attr(kani, kani::stub(alloc::fmt::format, crate::verif::util::stub_format))]
@@ -204,7 +204,7 @@ pub(crate) fn c05_lea16() {
     lea_body(16, false);
 }
 
-// @harness id=c05_lea64_a32 props=C05 crash=C05,C19 tier=quick timeout=1500 desc="LEA r64, m with the 0x67 prefix (32-bit address arithmetic)"
+// @harness id=c05_lea64_a32 props=C05,C19 crash=C05,C19 tier=quick timeout=1500 desc="LEA r64, m with the 0x67 prefix (32-bit address arithmetic)"
 #[cfg_attr(kani, kani::proof)]
 #[cfg_attr(kani, kani::unwind(90))]
 #[cfg_attr(kani, kani::stub(alloc::fmt::format, crate::verif::util::stub_format))]
@@ -238,7 +238,7 @@ fn mov_probe_body(store: bool) {
     std::mem::forget(ax);
 }
 
-// @harness id=c05_mov_load props=C05 crash=C05,C19 tier=quick timeout=1800 desc="MOV RAX,[mem] over every 64-bit addressing class against area D"
+// @harness id=c05_mov_load props=C05,C19 crash=C05,C19 tier=quick timeout=1800 desc="MOV RAX,[mem] over every 64-bit addressing class against area D"
 #[cfg_attr(kani, kani::proof)]
 #[cfg_attr(kani, kani::unwind(90))]
 #[cfg_attr(kani, kani::stub(alloc::fmt::format, crate::verif::util::stub_format))]
@@ -250,7 +250,7 @@ pub(crate) fn c05_mov_load() {
     mov_probe_body(false);
 }
 
-// @harness id=c05_mov_store props=C05 crash=C05,C19 tier=quick timeout=1800 desc="MOV [mem],RAX over every 64-bit addressing class against area D"
+// @harness id=c05_mov_store props=C05,C19 crash=C05,C19 tier=quick timeout=1800 desc="MOV [mem],RAX over every 64-bit addressing class against area D"
 #[cfg_attr(kani, kani::proof)]
 #[cfg_attr(kani, kani::unwind(90))]
 #[cfg_attr(kani, kani::stub(alloc::fmt::format, crate::verif::util::stub_format))]
